@@ -204,6 +204,8 @@ def run(res, drv, tier, seed):
                 else:
                     res.violation('correspondence', f'{eng}: total {t}, model {mt}, float BLUE {blue}', dict(rp, model=resp['out'], stream='C09.total'))
                 break
+    # clause: the estimate is a function of *this call's* measurements, also on a reused / warm-started estimator
+    history_totals(res, drv, r, tier)
     # clause: a supplied total is used exactly
     for _ in range(3 if tier == 'quick' else 12):
         T, got = given_total_used(r)
@@ -213,6 +215,45 @@ def run(res, drv, tier, seed):
             if not close(v, T, 1e-12, 0):
                 res.violation('failing-input', f'{k}: supplied total {T} but the model uses {v}', {'request': {'given_total': T}, 'observed': got}, key='total:given')
                 break
+
+
+def history_totals(res, drv, r, tier):
+    """several estimate calls on one estimator object (cold and warm start), some with a supplied total, some
+    without: each omitted total must be the estimate from that call's own measurement list"""
+    from mbi import Domain, FactoredInference, LocalInference
+    import contextlib, io
+    for _ in range(4 if tier == 'quick' else 30):
+        n1, n2 = r.choice([2, 3, 4]), r.choice([2, 3])
+        dom = Domain(['a', 'b'], [n1, n2])
+        N = r.randint(5, 200)
+        xa = np.zeros(n1); xb = np.zeros(n2)
+        for _k in range(N):
+            xa[r.randrange(n1)] += 1; xb[r.randrange(n2)] += 1
+        diff = np.array([[1.0 if k == i else (-1.0 if k == i + 1 else 0.0) for k in range(n1)] for i in range(n1 - 1)])
+        calls = [([(diff, diff @ xa, 1.0, ('a',))], None, 1.0),                                       # no query expresses the count
+                 ([(np.eye(n1), xa.copy(), 1.0, ('a',)), (np.tril(np.ones((n2, n2))), np.tril(np.ones((n2, n2))) @ xb, 2.0, ('b',))], None, float(N)),
+                 ([(np.eye(n1), xa.copy(), 1.0, ('a',))], 55.5, 55.5),
+                 ([(np.eye(n2), xb.copy(), 0.5, ('b',))], None, float(N))]
+        r.shuffle(calls)
+        for warm in (False, True):
+            for cls, kw in ((FactoredInference, {}), (LocalInference, {'marginal_oracle': 'convex'})):
+                eng = cls(dom, iters=2, warm_start=warm, **kw)
+                seq = []
+                for meas, given, want in calls:
+                    with contextlib.redirect_stdout(io.StringIO()), np.errstate(all='ignore'):
+                        try:
+                            m = eng.estimate(list(meas), total=given) if cls is LocalInference else eng.estimate(list(meas), total=given, options={})
+                        except Exception as e:
+                            res.violation('failing-input', f'{cls.__name__}(warm_start={warm}).estimate raises {type(e).__name__} in a call history', {'request': {'history': 'see c09.history_totals'}}, key='total:history-raises')
+                            break
+                    seq.append((given, want, float(m.total)))
+                    if not close(float(m.total), want, 1e-6, 1e-9):
+                        res.violation('failing-input', f'{cls.__name__}(warm_start={warm}): call {len(seq)} of a history (total {"omitted" if given is None else given}) uses total {float(m.total)}; '
+                                      f'the estimate from that call\'s own measurements is {want} (history so far: {seq})',
+                                      {'request': {'N': N, 'sizes': [n1, n2], 'warm_start': warm, 'engine': cls.__name__, 'history': seq}}, key='total:history')
+                        break
+                res.case({'history': [c[1] for c in calls], 'warm': warm, 'cls': cls.__name__, 'N': N}, True)
+                res.count('history runs')
 
 
 def search(res, tier, seed, broken):
